@@ -321,6 +321,53 @@ def work_sequence(unit):
     return acc.result()
 
 
+def wide_table(T, K, w, spec):
+    cells = spec[1] if spec[0] == "cells" else [(i // spec[1]) % K for i in range(T)]
+    table = np.full((T, K), float(w))
+    table[np.arange(T), np.asarray(cells) % K] = 0.0
+    return table
+
+
+def wide_cases(tier):
+    """(T, K, w, cheap cell per row): many clusters (index widths 8/16 bit and their neighbours) and
+    many points (block sizes 256/4096/65536 and their neighbours)"""
+    out = []
+    for K in (255, 256, 257, 300, 65535, 65536, 65537, 65600):
+        for T in ((2, 3) if tier == "quick" else (2, 3, 5)):
+            for pat in ("top", "topswitch", "lowtop"):
+                cells = {"top": [K - 1] * T, "topswitch": [K - 1 - (i % 2) * 3 for i in range(T)],
+                         "lowtop": [(K - 1) if i % 2 else 1 for i in range(T)]}[pat]
+                out.append((T, K, 10.0, ("cells", cells)))
+    for T in (255, 256, 257, 4095, 4096, 4097, 8193) + (() if tier == "quick" else (65535, 65536, 65537)):
+        for K in (2, 3):
+            for run in (1, 7, 300):
+                out.append((T, K, 3.0, ("run", run)))
+    return out
+
+
+def work_wide(unit):
+    """Sizes no brute force reaches: forward-DP oracle (exact on these integer/half tables)."""
+    (T, K, w, spec, tier, mode) = unit
+    kernel = _kernel()
+    acc = Acc()
+    if stopped():
+        return acc.result()
+    table = wide_table(T, K, w, spec)
+    betas = [("float", 0.5), ("float", 100.0)] if K > 3 else [("float", 1.0), ("float", 2.5), ("vec", [float(i % 3) for i in range(T)])]
+    for (kind, value) in betas:
+        beta = make_beta(kind, value)
+        acc.n += 1
+        acc.nontrivial += 1
+        msg = judge(kernel, table, beta, K, refs.dp_min(table, refs.beta_vector(beta, T)))
+        if msg:
+            acc.fail({"mode": mode, "family": "wide", "T": T, "K": K, "w": w, "spec": list(spec),
+                      "beta_kind": kind, "beta": value if kind == "float" else None},
+                     f"T={T}, K={K}: " + msg[:300])
+    if K == 300 and T == 2:
+        acc.sample({"family": "wide", "T": T, "K": K, "mode": mode})
+    return acc.result()
+
+
 def long_plan(tier):
     shapes_ = [(10, 2, 3.0), (7, 3, 3.0), (6, 4, 2.0)] if tier == "quick" else \
         [(14, 2, 3.0), (12, 2, 1.0), (9, 3, 3.0), (7, 4, 2.0), (6, 5, 2.0)]
@@ -356,6 +403,7 @@ def enumerate_mode(ctx, mode):
     res = ctx.pmap(work, units)
     res += ctx.pmap(work_long, [u + (ctx.tier, mode) for u in long_plan(ctx.tier)])
     res += ctx.pmap(work_sequence, [(K, ctx.tier, mode) for K in (2, 3, 4)])
+    res += ctx.pmap(work_wide, [u + (ctx.tier, mode) for u in wide_cases(ctx.tier)])
     return res
 
 
@@ -399,7 +447,10 @@ def run(ctx):
         "greedy sequence, i.e. where the dynamic programme has to trade assignment against switching; plus the "
         "'one-hot' family for longer sequences (every c in K^T for (T,K) in {(10,2),(7,3),(6,4)}, thorough up to "
         "T=14): oracle forward DP, cross-checked against brute force; plus call sequences: one process labels "
-        "tables with the same K and T = 8,7,5,6,4,3,2,1,2,4,3 (three passes) - results may not depend on earlier calls")
+        "tables with the same K and T = 8,7,5,6,4,3,2,1,2,4,3 (three passes) - results may not depend on earlier calls; plus the 'wide' family: K in "
+        "{255,256,257,300,65535,65536,65537,65600} x T in {2,3} x three cheap-cell patterns in the highest indices x beta {0.5,100}, "
+        "and T in {255,256,257,4095,4096,4097,8193} (thorough: 65535..65537) x K in {2,3} x run lengths {1,7,300} x three betas; "
+        "oracle forward DP")
     ctx.assumptions += [
         "binary64 sums of the alphabets are exact: integers and halves with every partial sum (including the "
         "+beta/-beta the recurrence performs) below 2^52 - the 'huge' value is 1e14 so that 8 cells + 0.5 stay exact",
@@ -420,6 +471,15 @@ def mode_main(mode, arg, tier, seed):
 def replay(ctx, c):
     from vlib import lib
     lib.load(c["mode"])
+    if c.get("family") == "wide":
+        T, K = c["T"], c["K"]
+        table = wide_table(T, K, c["w"], tuple(c["spec"]))
+        beta = make_beta("float", c["beta"]) if c["beta_kind"] == "float" else make_beta("vec", [float(i % 3) for i in range(T)])
+        msg = judge(_kernel(), table, beta, K, refs.dp_min(table, refs.beta_vector(beta, T)))
+        ctx.cov["evaluations"] = 1
+        if msg:
+            ctx.violation(c, msg[:300])
+        return
     table = codec.dec(c["table"])
     if c["order"] == "F":
         table = np.asfortranarray(table)
